@@ -148,7 +148,7 @@ Definition pos_bodies : pos_table :=
    ("UnaryExpr", (PRet (PField "OpPos" 0%Z),
       PRet (PChildEnd "X")));
    ("ValueSpec", (PIf (CNot (CLenPos "Names")) (PRet (PChildPos "Type")) (PRet (PListFirstPos "Names")),
-      PIf (CLenPos "Values") (PRet (PListLastEnd "Values")) (PIf (CNonNil "Type") (PRet (PChildEnd "Type")) (PRet (PListLastEnd "Names")))))].
+      PIf (CLenPos "Values") (PRet (PListLastEnd "Values")) (PIf (CNonNil "Tag") (PRet (PChildEnd "Tag")) (PIf (CNonNil "Type") (PRet (PChildEnd "Type")) (PRet (PListLastEnd "Names"))))))].
 
 (* bodies outside the translated fragment: 1 *)
 Definition pos_unparsed : list string := ["File.End"].
